@@ -400,8 +400,8 @@ XSET = {
 # provider expressions that mention identifiers of a DOT-imported package (function, composite literal, type argument,
 # inside a function literal): the generated file imports the package by name and has to qualify them (repaired)
 DOT_IMPORT = {
-    "prov/p.go": 'package prov\n\ntype A struct{ S string }\n\nfunc NewA() *A { return &A{S: "a"} }\n',
-    "k.go": 'package main\n\nimport (\n\t"github.com/mazrean/kessoku"\n\t. "vscratch/dot_import/prov"\n)\n\ntype B struct{ A *A }\ntype Box[T any] struct{ V T }\n\nfunc NewBox[T any]() Box[T] { return Box[T]{} }\nfunc NewB(a *A, b Box[A], n Name) *B { return &B{A: a} }\n\ntype Name string\n\nvar _ = kessoku.Inject[*B]("InitB", kessoku.Value(&A{S: "lit"}), kessoku.Provide(NewBox[A]), kessoku.Provide(func() Name { a := NewA(); return Name(a.S) }), kessoku.Async(kessoku.Provide(NewB)))\n\nvar _ = kessoku.Inject[*A]("InitA", kessoku.Provide(NewA))\n\nfunc main() {\n\tif s := InitB(nil).A.S + InitA().S; s != "lita" {\n\t\tpanic("wrong result " + s)\n\t}\n}\n',
+    "prov/p.go": 'package prov\n\ntype A struct{ S string }\n\nfunc NewA() *A { return &A{S: "a"} }\n\ntype Port int\n\nvar Default = struct{ Port Port }{Port: 8080}\n\ntype Factory struct{ Tag string }\n\nfunc (f *Factory) NewLabel() Label { return Label(f.Tag) }\n\ntype Label string\n\nvar Labels = &Factory{Tag: "lbl"}\n',
+    "k.go": 'package main\n\nimport (\n\t"github.com/mazrean/kessoku"\n\t. "vscratch/dot_import/prov"\n)\n\ntype B struct{ A *A }\ntype Box[T any] struct{ V T }\n\nfunc NewBox[T any]() Box[T] { return Box[T]{} }\nfunc NewB(a *A, b Box[A], n Name, p Port, l Label) *B { return &B{A: a} }\n\ntype Name string\n\nvar _ = kessoku.Inject[*B]("InitB", kessoku.Value(&A{S: "lit"}), kessoku.Provide(NewBox[A]), kessoku.Provide(func() Name { a := NewA(); return Name(a.S) }), kessoku.Value(Default.Port), kessoku.Provide(Labels.NewLabel), kessoku.Async(kessoku.Provide(NewB)))\n\nvar _ = kessoku.Inject[*A]("InitA", kessoku.Provide(NewA))\n\nfunc main() {\n\tif s := InitB(nil).A.S + InitA().S; s != "lita" {\n\t\tpanic("wrong result " + s)\n\t}\n}\n',
 }
 
 
@@ -498,6 +498,13 @@ ALIAS_CAPTURE2 = {
 }
 
 
+# a package-level variable ctx: the pool names the context parameter ctx0, and every wait of the injector - in its own
+# flow and inside its goroutines - has to select on that parameter; called with a cancelled context it must report an error
+PKG_LEVEL_CTX = {
+    "k.go": 'package main\n\nimport (\n\t"context"\n\t"time"\n\n\t"github.com/mazrean/kessoku"\n)\n\nvar ctx = context.Background()\n\ntype A struct{}\ntype B struct{}\ntype C struct{}\ntype App struct{}\n\nfunc NewA() (*A, error) { time.Sleep(300 * time.Millisecond); return &A{}, nil }\nfunc NewB() *B          { return &B{} }\nfunc NewC(b *B) *C      { return &C{} }\nfunc NewApp(a *A, b *B, c *C) *App { return &App{} }\n\nvar _ = kessoku.Inject[*App]("InitApp", kessoku.Async(kessoku.Provide(NewA)), kessoku.Async(kessoku.Provide(NewB)), kessoku.Async(kessoku.Provide(NewC)), kessoku.Provide(NewApp))\n\nfunc main() {\n\t_ = ctx\n\tc, cancel := context.WithCancel(context.Background())\n\tcancel()\n\tdone := make(chan struct{})\n\tgo func() {\n\t\tdefer close(done)\n\t\tif v, err := InitApp(c); err == nil && v == nil {\n\t\t\tpanic("zero value without an error after cancellation")\n\t\t}\n\t}()\n\tselect {\n\tcase <-done:\n\tcase <-time.After(5 * time.Second):\n\t\tpanic("the injector did not return after cancellation")\n\t}\n}\n',
+}
+
+
 def write_pkg(mod, name, files):
     d = os.path.join(mod, name)
     os.makedirs(d, exist_ok=True)
@@ -578,6 +585,7 @@ def _stage(seed, tier, key="N-x"):
     pkgs.append(("injector_names", INJECTOR_NAMES, ["k.go"], None, dict(kind="naming: injector names against generated imports and variables", run=True)))
     pkgs.append(("print_alike", PRINT_ALIKE, ["k.go"], None, dict(kind="types that print alike", run=True, expect_params={"k_band.go": {"InitF": ["struct { x int }"]}})))
     pkgs.append(("alias_capture2", ALIAS_CAPTURE2, ["k.go"], None, dict(kind="naming: a renamed import, another file importing it plainly, and a local of a copied literal", run=True)))
+    pkgs.append(("pkg_level_ctx", PKG_LEVEL_CTX, ["k.go"], None, dict(kind="naming: a package-level ctx next to an async injector, cancelled call", run=True)))
     pkgs.append(("xset", XSET, ["k.go"], "KF-C10-1", dict(kind="known finding reproducer (Set of another package)", signature="no vet signature: the file compiles",
                                                        expect_params={"k_band.go": {"InitB": []}}, known_params={"k_band.go": {"InitB": ["*prov.A"]}})))
     pkgs.append(("known_KF_C04_24", UNEXPORTED_TYPE, ["k.go"], "KF-C04-24", dict(kind="known finding reproducer", signature=r"(not exported by package lib|cannot refer to unexported|unexported)")))
